@@ -11,7 +11,7 @@ BASE = {
     "sonic": dict(MaxDegs={3}, Nvs={-1}, SupSet={1, 2, 3}, HidSet={0, 1, 2},
                   BoundSeqs={(), (2,), (3, 1), (2, 2, 3)}, NoBoundsToo=True,
                   ClsSet={"zero", "const", "full", "lowz"}),
-    "ipa": dict(MaxDegs={3}, Nvs={-1}, SupSet={1, 3}, HidSet={0, 1},
+    "ipa": dict(MaxDegs={3}, Nvs={-1}, SupSet={1, 2, 3}, HidSet={0, 1},
                 BoundSeqs={()}, NoBoundsToo=True, ClsSet={"zero", "const", "full", "lowz"}),
     "pst13": dict(MaxDegs={2}, Nvs={2}, SupSet={1, 2}, HidSet={0, 1, 2},
                   BoundSeqs={()}, NoBoundsToo=True, ClsSet={"zero", "const", "full", "mixed", "uni"}),
